@@ -497,6 +497,7 @@ static size_t ZSTD_seekable_decompress_internal(ZSTD_seekable* zs, void* dst, si
     U32 noOutputProgressCount = 0;
     size_t srcBytesRead = 0;
     do {
+        int frameEnded = 0;
         /* check if we can continue from a previous decompress job */
         if (targetFrame != zs->curFrame || offset < zs->decompressedOffset) {
             zs->decompressedOffset = zs->seekTable.entries[targetFrame].dOffset;
@@ -551,6 +552,7 @@ static size_t ZSTD_seekable_decompress_internal(ZSTD_seekable* zs, void* dst, si
 
             if (toRead == 0) {
                 /* frame complete */
+                frameEnded = 1;
 
                 /* verify checksum */
                 if (zs->seekTable.checksumFlag &&
@@ -581,6 +583,35 @@ static size_t ZSTD_seekable_decompress_internal(ZSTD_seekable* zs, void* dst, si
                 zs->in.pos = 0;
             }
         }  /* while (zs->decompressedOffset < offset + len) */
+
+        /* The request can end exactly where the seek table says the frame ends, before the decoder
+         * has seen the end of the frame : with checksums, finish the frame (it must not regenerate
+         * anything more) so that the data just returned gets verified. */
+        if (!frameEnded && zs->seekTable.checksumFlag
+         && zs->curFrame < zs->seekTable.tableLen
+         && zs->decompressedOffset == offset + len
+         && zs->decompressedOffset == zs->seekTable.entries[zs->curFrame + 1].dOffset) {
+            for (;;) {
+                ZSTD_outBuffer noRoom = { zs->outBuff, 0, 0 };
+                size_t const prevInPos = zs->in.pos;
+                size_t toRead = ZSTD_decompressStream(zs->dstream, &noRoom, &zs->in);
+                if (ZSTD_isError(toRead)) return toRead;
+                if (toRead == 0) break;
+                if (zs->in.pos == zs->in.size) {
+                    toRead = MIN(toRead, SEEKABLE_BUFF_SIZE);
+                    CHECK_IO(zs->src.read(zs->src.opaque, zs->inBuff, toRead));
+                    zs->in.size = toRead;
+                    zs->in.pos = 0;
+                } else if (zs->in.pos == prevInPos) {
+                    return ERROR(corruption_detected);   /* more data than the seek table announces */
+                }
+            }
+            if ((XXH64_digest(&zs->xxhState) & 0xFFFFFFFFU) !=
+                        zs->seekTable.entries[zs->curFrame].checksum) {
+                return ERROR(corruption_detected);
+            }
+            zs->curFrame = (U32)-1;   /* frame consumed : the next read starts a frame afresh */
+        }
     } while (zs->decompressedOffset != offset + len);
 
     return len;
